@@ -59,7 +59,7 @@ const TIME_PATTERN: &str = r#"(?P<hours>[0-9]{2}):(?P<minutes>[0-9]{2}):(?P<seco
 
 /// Regular expression patterns for parsing time zones.
 const ZULU_PATTERN: &str = r#"(?P<zulu>[zZ])"#;
-const ZONE_PATTERN: &str = r#"@(?P<zone>[a-zA-Z_/]+)"#;
+const ZONE_PATTERN: &str = r#"@(?P<zone>[a-zA-Z0-9_/+-]+)"#;
 const OFFSET_PATTERN: &str = r#"(?P<offSign>[+-])(?P<offHours>[0-9]{2}):(?P<offMinutes>[0-9]{2})(:(?P<offSeconds>[0-9]{2}))?"#;
 
 /// Number of nanoseconds in a second.
